@@ -410,6 +410,7 @@ type agg struct {
 	mu          sync.Mutex
 	results     []*simkit.Result
 	harnessErrs []string
+	transient   []string // worker deaths that did not recur when the run was repeated alone
 	crashViol   []*simkit.Result
 }
 
@@ -615,7 +616,7 @@ func handleWorkerDeath(a *agg, pc *propCfg, id, tier string, seed uint64, bin, v
 		a.mu.Lock()
 		a.results = append(a.results, res...)
 		if len(res) == 0 || res[0].Violation == nil {
-			a.harnessErrs = append(a.harnessErrs, fmt.Sprintf("worker died at run %d (exit with trace below) but the run completed when repeated alone — not reproducible:\n%s", idx, tail(errTail, 40)))
+			a.transient = append(a.transient, fmt.Sprintf("worker died at run %d (exit with trace below) but the run completed when repeated alone — not reproducible:\n%s", idx, tail(errTail, 60)))
 		}
 		a.mu.Unlock()
 		return
